@@ -65,6 +65,23 @@ class CholLinearOperator(RootLinearOperator):
         # diag(L L^T) sums the squared rows of L, diag(R^T R) the squared columns of R
         return (self.root.to_dense() ** 2).sum(-2 if self.upper else -1)
 
+    def _getitem(self, row_index, col_index, *batch_indices) -> LinearOperator:
+        if self.upper:  # R^T R = (R^T)(R^T)^T: index the equivalent lower-orientation root operator
+            return RootLinearOperator(self.root._transpose_nonbatch())._getitem(row_index, col_index, *batch_indices)
+        return super()._getitem(row_index, col_index, *batch_indices)
+
+    def _get_indices(self, row_index, col_index, *batch_indices) -> torch.Tensor:
+        if self.upper:
+            return RootLinearOperator(self.root._transpose_nonbatch())._get_indices(row_index, col_index, *batch_indices)
+        return super()._get_indices(row_index, col_index, *batch_indices)
+
+    def _mul_constant(
+        self: Float[LinearOperator, "*batch M N"], other: Union[float, torch.Tensor]
+    ) -> Float[LinearOperator, "*batch M N"]:
+        if self.upper and (other > 0).all():  # keep the orientation when folding sqrt(c) into the factor
+            return self.__class__(self.root._mul_constant(other.sqrt()), upper=True)
+        return super()._mul_constant(other)
+
     def _matmul(
         self: Float[LinearOperator, "*batch M N"],
         rhs: Union[Float[torch.Tensor, "*batch2 N C"], Float[torch.Tensor, "*batch2 N"]],
